@@ -15,6 +15,7 @@ TEMPLATES = [
     ("plain", {**BASE, "p_r": 0.0, "p_b": 0.0, "p_e": 0.0}),
     ("filtered", {**BASE, "p_r": 1.0, "p_b": 0.5}),
     ("stochastic", {**BASE, "p_e": 1.0, "p_r": 0.0, "T": [2, 3]}),
+    ("two stochastic states", {**BASE, "p_h_stoch": 1.0, "p_e": 1.0, "p_r": 0.3, "T": [2, 3], "max_cells": 900}),
     ("dense choice + constraint", {**BASE, "p_b": 1.0, "p_dense_constraint": 1.0, "p_r": 0.0}),
 ]
 
@@ -132,7 +133,7 @@ def run(ctx: Ctx) -> Result:
         else:
             cases.append(c)
     for i in range(ctx.n(40, 400)):
-        m = gen.rand_model(rng, {"max_cells": 800})
+        m = gen.rand_model(rng, {"max_cells": 800, "p_e": 0.4, "p_state_filter": 0.4})
         cases.append({"fn": "lifecycle", "kind": "random accepted model", "mdl": m, "rules": [], "expected_stage": "none", "variant": 0,
                       "init": init_for(rng, m, rng.choice([1, 3])), "seed": i, "jit": i % 2 == 0})
     for i, c in enumerate(cases):
